@@ -37,6 +37,17 @@ def _boolsym(spec, limit=3):
     return s
 
 
+def _symthr(spec):
+    """thresholds/signs of named cardinality nodes symbolic, declared leaf boxes kept as written"""
+    s = copy.deepcopy(spec)
+    for c in pl.compounds(s):
+        if c["t"] == "AtLeast" and c.get("id"):
+            c["value"], c["sign"] = "$v_" + c["id"], "$s_" + c["id"]
+        if c["t"] == "AtMost" and c.get("id"):
+            c["value"] = "$v_" + c["id"]
+    return s
+
+
 def instantiations(tier, seed):
     rng = random.Random(seed * 307 + 11)
     out = []
@@ -63,9 +74,21 @@ def instantiations(tier, seed):
                             # compounds without sub-propositions (validation accepts them), not pre-fixed: reduce() must turn them into their constant
                             F.N("Any", F.a(), F.N("Any", id="E"), id="A"), F.N("All", F.N("Any", F.a(), F.N("All", id="E"), id="B"), F.b(), id="A"),
                             F.N("All", F.N("Any", F.b(), F.AL(1, id="E", sign=1), id="B"), F.AM(1, F.a(), F.N("Any", id="F"), id="C"), id="A"),
-                            F.N("Imply", F.N("All", id="E"), F.a(), id="A")]):
+                            F.N("Imply", F.N("All", id="E"), F.a(), id="A"),
+                            # cardinality nodes with 1 < k < n over many leaves: fixed children TRUE, FALSE, TRUE in id order leave the node undecided
+                            F.AL(3, F.a(), F.b(), F.c(), F.d(), id="A", sign=1), F.N("All", F.AM(2, F.a(), F.b(), F.c(), F.d(), F.V("e"), id="B"), F.V("f"), id="A"),
+                            F.AL(3, F.a(), F.b(), F.c(), F.d(), F.V("e"), id="A", sign=1),
+                            # the same with the fixed pattern written into the declared bounds (plain ints: containers keyed by a constant
+                            # then behave exactly as in CPython, which structural hash tokens of symbolic bounds do not reproduce)
+                            ]):
         m = _boolsym(F.rename(F.symbolize(sk), F.ALT_NAMES[(k + seed) % len(F.ALT_NAMES)]), 3)
         out.append({"model": m, "assumed": [], "warm": k % 2 == 1})
+    # the same with the fixed pattern written into the declared bounds (plain ints: containers keyed by a constant then behave exactly as in
+    # CPython, which structural hash tokens of symbolic bounds do not reproduce); ids not renamed, so the pattern keeps its id order
+    for k, sk in enumerate([F.AL(3, F.V("a", 1, 1), F.V("b", 0, 0), F.V("c", 1, 1), F.d(), F.V("e"), id="A", sign=1),
+                            F.N("All", F.AM(2, F.V("a", 1, 1), F.V("b", 0, 0), F.V("c", 1, 1), F.d(), F.V("e"), id="B"), F.V("f"), id="A"),
+                            F.AL(2, F.V("a", 0, 0), F.V("b", 1, 1), F.V("c", 0, 0), F.V("c2", 2, 2), F.d(), F.V("e"), id="A", sign=1)]):
+        out.append({"model": _boolsym(_symthr(sk), 2), "assumed": [], "warm": k % 2 == 1})
     base = _boolsym(F.symbolize(F.AL(2, F.a(), F.i(), F.AL(1, F.b(), F.c(), id="B", sign=1), id="A", sign=1)))
     for mu in ("ignore_constants", "allow_fixed"):
         out.append({"kind": "mutant", "mutant": mu, "model": base, "assumed": []})
